@@ -65,10 +65,15 @@ def _program_imports(script_dir: str):
     modules stored next to it; afterwards the directory is taken off the path again. Helper
     modules stay loaded for the next program of the same directory, but are forgotten before a
     program from another directory runs (it must get its own `helpers.py`, not this one's) and
-    when their file has changed since (the next program must run the code that is on disk)."""
+    when the file of one of them has changed since (the next program must run the code that
+    is on disk, and so must the helpers that import the changed one)."""
     root = os.path.join(os.path.abspath(script_dir), "")
-    for name, (owner, stamp) in list(_PROGRAM_HELPERS.items()):
-        if owner != root or stamp is None or _file_stamp(stamp[0]) != stamp:
+    if any(
+        owner != root or stamp is None or _file_stamp(stamp[0]) != stamp
+        for owner, stamp in _PROGRAM_HELPERS.values()
+    ):
+        # All of them: a helper that imported the changed one holds what it imported.
+        for name in list(_PROGRAM_HELPERS):
             del _PROGRAM_HELPERS[name]
             sys.modules.pop(name, None)
     sys.path.insert(0, script_dir)
